@@ -169,7 +169,7 @@ impl<const N: usize> AEADCipherCodec<N> {
         }
         let eih_len = if require_eih { 16 } else { 0 };
         let header_len = eih_len + 1 + 8 + request_salt_len + 2 + tag_size;
-        if src.remaining() < header_len {
+        if src.remaining() < N + header_len {
             bail!("header too short, expecting {} bytes, but found {} bytes", header_len + N, src.remaining());
         }
         let mut salt = [0; N];
